@@ -99,6 +99,9 @@ def bb_corpus():
         conn2 = {p: v for p, v in (("i", "a"), ("o1", o1), ("o2", o2)) if v}
         yield {"name": "twobb", "nodes": nodes,
                "bbs": [["t0", "two", BBS["two"][0], BBS["two"][1], conn2], ["f1", "ff", BBS["ff"][0], BBS["ff"][1], {"clk": "b", "d": "z", "q": "q"}]]}
+    # an escaped INSTANCE name
+    yield {"name": "escinst", "nodes": [["a", "input", [], False], ["b", "input", [], False], ["y", "buf", [], True]],
+           "bbs": [["\\i1", "ff", BBS["ff"][0], BBS["ff"][1], {"clk": "a", "d": "b", "q": "y"}]]}
     # escaped names around a blackbox, a pin tied to a constant node
     yield {"name": "escbb", "nodes": [["\\a[0]", "input", [], False], ["k", "1", [], False], ["\\q$", "buf", [], True]],
            "bbs": [["f0", "ff", BBS["ff"][0], BBS["ff"][1], {"clk": "k", "d": "\\a[0]", "q": "\\q$"}]]}
